@@ -89,7 +89,8 @@ func (err ErrCode) String() string {
 		return "Unsupported tunnelling layer"
 
 	default:
-		return fmt.Sprintf("Unknown error code %#x", err)
+		// Format the numeric value: passing err itself would make fmt call Error again, forever.
+		return fmt.Sprintf("Unknown error code %#x", uint8(err))
 	}
 }
 
